@@ -16,6 +16,9 @@ Model/Eval.vos Model/Eval.vok Model/Eval.required_vos: Model/Eval.v Base/Base.vo
 Model/Init.vo Model/Init.glob Model/Init.v.beautified Model/Init.required_vo: Model/Init.v Base/Base.vo Model/Reader.vo Model/Store.vo Model/Eval.vo
 Model/Init.vio: Model/Init.v Base/Base.vio Model/Reader.vio Model/Store.vio Model/Eval.vio
 Model/Init.vos Model/Init.vok Model/Init.required_vos: Model/Init.v Base/Base.vos Model/Reader.vos Model/Store.vos Model/Eval.vos
+Model/Api.vo Model/Api.glob Model/Api.v.beautified Model/Api.required_vo: Model/Api.v Base/Base.vo Model/Reader.vo Model/Printer.vo
+Model/Api.vio: Model/Api.v Base/Base.vio Model/Reader.vio Model/Printer.vio
+Model/Api.vos Model/Api.vok Model/Api.required_vos: Model/Api.v Base/Base.vos Model/Reader.vos Model/Printer.vos
 Proofs/ReaderTotal.vo Proofs/ReaderTotal.glob Proofs/ReaderTotal.v.beautified Proofs/ReaderTotal.required_vo: Proofs/ReaderTotal.v Base/Base.vo Model/Reader.vo
 Proofs/ReaderTotal.vio: Proofs/ReaderTotal.v Base/Base.vio Model/Reader.vio
 Proofs/ReaderTotal.vos Proofs/ReaderTotal.vok Proofs/ReaderTotal.required_vos: Proofs/ReaderTotal.v Base/Base.vos Model/Reader.vos
